@@ -152,4 +152,25 @@ theorem restart_wet (rc : Nat) :
 /-- dry returns what a successful wet restart returns -/
 theorem restart_dry_same_control : (runRestart { dry := true } 0).2 = (runRestart { dry := false } 0).2 := rfl
 
+/-! ## non-vacuity: a dry and a wet run of the same configuration on the same views -/
+
+private def nd (id : Nat) (key : Int) (cs : List View := []) : View :=
+  .mk { id := id, path := "", populated := some true, oomGroup := some false, marks := ⟨false, false, false, false⟩,
+        key := key, eligible := true, pidsCurrent := none } cs
+private def cfgD : KillCfg :=
+  { recursive := true, dry := true, alwaysContinue := false, kernelKill := false, reapMemory := true,
+    postActionDelay := some 7, hasRuleset := true }
+private abbrev rank0 : List View → List View := fun l => sortDesc (l.filter (·.info.eligible))
+private def env0 : Env :=
+  { procs := [some [12]], killRc := [0], xattr := [], writes := [], pidfd := [3], mrelease := [] }
+/-- roots 1{3, 4} and 2; 1 ranks first and is descended into, its child 4 ranks first -/
+private def roots0 : List View := [nd 1 1 [nd 3 2, nd 4 9], nd 2 0]
+
+example : (runKill cfgD rank0 roots0 env0).evs = [.kmsg 4 true, .pause 7] ∧ (runKill cfgD rank0 roots0 env0).val = .stop := by
+  decide
+example : ((runKill (wet cfgD) rank0 roots0 env0).evs.take 5) =
+    [.setxattr 4 .uuidT (.uuid 0) none 0, .setxattr 4 .uuidU (.uuid 0) none 0,
+     .setxattr 4 .oomsT (.num 1) none 0, .setxattr 4 .oomsU (.num 1) none 0, .procs 4 (some [12])] := by
+  decide
+
 end C04
